@@ -3,21 +3,28 @@
 //! E-DFS on the real `p2panda_spaces::manager::Manager` with the crate's own test store / forge
 //! (`TestPeer`: in-memory SQLite + `TestForge`), wall clock frozen through seam S3.
 //!
-//! One DFS execution = one *scenario* (a choice vector over: number of peers, key-bundle bootstrap
-//! mode, the `create_space` variant, and `depth` further actions from {add, remove, publish
-//! application message, publish key bundle}; only actions the membership model allows are offered).
-//! Every message is delivered to every other peer right after it was forged (causal order).  Inside
-//! the execution the scenario is re-run from scratch
-//!   * once with the *totality* probe: at every prefix state every receiver is handed the whole
-//!     adversarial menu through the real, non-persisting `Manager::process` under `catch_unwind`;
-//!   * twice without any duplicate (baselines; two, to learn which observables are reproducible);
-//!   * once per duplicate distance k = 1..=n: every peer re-processes message i right after
-//!     position i+k-1, so all (peer, i, j>=i) pairs are covered and no message is processed more
-//!     than twice by anybody.
-//! Idempotency oracle per duplicate: no panic, no events, canonical group state and space state read
-//! back from the store unchanged, `members()` unchanged; and per duplicate run (when no duplicate of
-//! that peer fired locally): results of all first deliveries, forged message ids and final state
-//! equal to the baseline.
+//! One DFS execution = one *scenario*: a choice vector over the number of peers, the key-bundle
+//! bootstrap mode (registered out of band | published as messages), the `create_space` variant and
+//! `depth` further actions from {add, remove, publish application message, publish key bundle}; only
+//! actions the harness' membership model allows are offered (generation is pure, the real API is
+//! only executed afterwards).  Every message is delivered to every other peer right after it was
+//! forged (causal order, linear history).
+//!
+//! DFS re-executes shared prefixes, so every prefix is *owned* by exactly one scenario (the one
+//! whose later choices are all 0) and the expensive probes are done by the owner only:
+//!   * totality run: after every owned action every receiver is handed the whole adversarial menu
+//!     through the real, non-persisting `Manager::process`, each call under `catch_unwind`;
+//!   * baseline run (no duplicates);
+//!   * one duplicate run per message position j produced by an owned action: after message j has
+//!     reached everybody, every peer (authors included) re-processes every message i <= j once, in
+//!     order, then the scenario continues.  Over all scenarios this covers every (peer, i, j >= i)
+//!     and nobody processes a message more than twice in a run.
+//! Idempotency oracle per duplicate: no panic, no events, and the complete persisted state of the
+//! manager (global auth state, space state, read back from the store and canonicalised) as well as
+//! `members()` unchanged.  The manager keeps no other mutable state than its store and an RNG that
+//! `process` never touches, so "unchanged now" carries over to the rest of the run; in addition the
+//! classes of all later first deliveries and the final member lists are compared with the baseline
+//! for peers none of whose duplicates fired.
 use std::borrow::Borrow;
 use std::cell::RefCell;
 use std::collections::{BTreeMap, BTreeSet};
@@ -351,10 +358,34 @@ impl Proc {
         match self {
             Proc::Events(k, _) if k.is_empty() => "ok/no-events".into(),
             Proc::Events(k, _) => format!("ok/{}", k.join("+")),
-            Proc::Error(e) => format!("err/{}", e.chars().take(60).collect::<String>()),
+            Proc::Error(e) => format!("err/{}", strip_ids(e).chars().take(70).collect::<String>()),
             Proc::Panic(p) => format!("panic/{}", p.site()),
         }
     }
+}
+
+/// Replace hex ids (and Debug byte lists) by `#` so that classes do not depend on concrete ids.
+fn strip_ids(s: &str) -> String {
+    let mut out = String::new();
+    let mut run = String::new();
+    let flush = |run: &mut String, out: &mut String| {
+        if run.len() >= 8 && run.chars().all(|c| c.is_ascii_hexdigit()) {
+            out.push('#');
+        } else {
+            out.push_str(run);
+        }
+        run.clear();
+    };
+    for c in s.chars() {
+        if c.is_ascii_alphanumeric() {
+            run.push(c);
+        } else {
+            flush(&mut run, &mut out);
+            out.push(c);
+        }
+    }
+    flush(&mut run, &mut out);
+    out
 }
 
 fn event_kind(v: &serde_json::Value) -> String {
@@ -586,18 +617,16 @@ impl World {
     }
 }
 
-enum Source<'a> {
-    Choose { ch: &'a Chooser, depth: usize, accs: &'a [Acc], kb_actors: &'a [usize] },
-    Fixed(&'a [Act]),
-}
-
 struct RunCfg<'a> {
     peers: usize,
-    boot_kb: bool,
-    source: Source<'a>,
-    /// Some(k): every peer re-processes message i right after position i+k-1
-    dup: Option<usize>,
-    totality: Option<&'a Menu>,
+    /// key bundles registered out of band before the first action (else the action list starts
+    /// with one `Kb` action per peer)
+    oob: bool,
+    acts: &'a [Act],
+    /// Some(j): right after message j reached everybody, every peer re-processes messages 0..=j
+    dup_at: Option<usize>,
+    /// probe with the adversarial menu after every action with index >= .1
+    totality: Option<(&'a Menu, usize)>,
 }
 
 async fn run_once(cfg: RunCfg<'_>) -> RunOut {
@@ -606,17 +635,11 @@ async fn run_once(cfg: RunCfg<'_>) -> RunOut {
     let n = cfg.peers;
     // adversary material lives outside the peers
     let mut adv = match cfg.totality {
-        Some(menu) => Some(Adversary::new(menu).await),
+        Some((menu, _)) => Some(Adversary::new(menu).await),
         None => None,
     };
 
-    // bootstrap: out-of-band registration, or key-bundle messages as the first actions
-    let mut pending: Vec<Act> = vec![];
-    if cfg.boot_kb {
-        for p in 0..n {
-            pending.push(Act::Kb(p));
-        }
-    } else {
+    if cfg.oob {
         for p in 0..n {
             for q in 0..n {
                 if p != q {
@@ -636,54 +659,16 @@ async fn run_once(cfg: RunCfg<'_>) -> RunOut {
         }
     }
 
-    let mut model = Model::default();
-    let mut step = 0usize;
-    let mut fixed_pos = 0usize;
-    loop {
-        // next action
-        let act = if !pending.is_empty() {
-            pending.remove(0)
-        } else {
-            match &cfg.source {
-                Source::Fixed(acts) => {
-                    // the bootstrap actions are part of the recorded list
-                    let skip = if cfg.boot_kb { n } else { 0 };
-                    match acts.get(skip + fixed_pos) {
-                        Some(a) => {
-                            fixed_pos += 1;
-                            a.clone()
-                        }
-                        None => break,
-                    }
-                }
-                Source::Choose { ch, depth, accs, kb_actors } => {
-                    if !model.created {
-                        let vars = create_variants(n, accs);
-                        let c = ch.choose_free(vars.len(), "create");
-                        Act::Create(vars[c].clone())
-                    } else if step >= *depth {
-                        break;
-                    } else {
-                        let opts = model.options(n, accs, kb_actors);
-                        if opts.is_empty() {
-                            break;
-                        }
-                        step += 1;
-                        opts[ch.choose_free(opts.len(), "act")].clone()
-                    }
-                }
-            }
-        };
-        let act_idx = out.acts.len();
-        let author = match &act {
+    for (act_idx, act) in cfg.acts.iter().enumerate() {
+        let author = match act {
             Act::Kb(p) | Act::App(p) => *p,
             Act::Create(_) => 0,
             Act::Add(x, _, _) | Act::Remove(x, _) => *x,
         };
-        let produced = match guarded(w.perform(&act)).await {
+        let produced = match guarded(w.perform(act)).await {
             Ok(Ok(ms)) => ms,
             Ok(Err(e)) => {
-                out.refused = Some(format!("{} refused: {e}", act.show()));
+                out.refused = Some(format!("{} refused: {}", act.show(), strip_ids(&e)));
                 break;
             }
             Err(p) => {
@@ -691,7 +676,6 @@ async fn run_once(cfg: RunCfg<'_>) -> RunOut {
                 break;
             }
         };
-        model.apply(&act);
         out.acts.push(act.clone());
 
         for op in produced {
@@ -712,10 +696,8 @@ async fn run_once(cfg: RunCfg<'_>) -> RunOut {
             }
             out.first.push(row);
 
-            // duplicates for position j = idx
-            if let Some(k) = cfg.dup {
-                if idx + 1 >= k {
-                    let i = idx + 1 - k;
+            if cfg.dup_at == Some(idx) {
+                for i in 0..=idx {
                     for p in 0..n {
                         let before = match w.snapshot(p).await {
                             Ok(s) => s,
@@ -751,10 +733,12 @@ async fn run_once(cfg: RunCfg<'_>) -> RunOut {
         }
 
         // totality probe at this prefix state
-        if let Some(adv) = adv.as_mut() {
-            if let Err(e) = adv.probe(&w, &out.msgs, &mut out.adv).await {
-                out.machinery = Some(e);
-                return out;
+        if let (Some(adv), Some((_, from))) = (adv.as_mut(), cfg.totality) {
+            if act_idx >= from {
+                if let Err(e) = adv.probe(&w, &out.msgs, &mut out.adv).await {
+                    out.machinery = Some(e);
+                    return out;
+                }
             }
         }
     }
@@ -1103,7 +1087,6 @@ struct ExecOut {
     nontrivial: bool,
     refused: Option<String>,
     machinery: Option<String>,
-    irreproducible: Vec<String>,
     registry_growth: u64,
     dup_errors: BTreeSet<String>,
     final_states: Vec<u64>,
@@ -1123,103 +1106,143 @@ fn history_upto(acts: &[Act], msgs: &[MsgInfo], upto_msg: usize) -> String {
     show_acts(&acts[..=last_act.min(acts.len().saturating_sub(1))])
 }
 
-async fn execute(ch: &Chooser, params: &Params) -> ExecOut {
-    let mut ex = ExecOut::default();
+struct Scenario {
+    peers: usize,
+    oob: bool,
+    /// complete action list (in message-bootstrap mode it starts with one Kb per peer)
+    acts: Vec<Act>,
+    /// actions with index >= owned_from are owned by this scenario (all later choices are 0)
+    owned_from: usize,
+}
+
+/// Pure generation from the chooser and the membership model.
+fn generate(ch: &Chooser, params: &Params) -> Scenario {
     let peers = params.peer_choices[ch.choose_free(params.peer_choices.len(), "peers")];
-    let boot_kb = ch.choose_free(2, "bootstrap") == 1;
-    ex.peers = peers;
-    ex.boot_kb = boot_kb;
-
-    // run T: generate the scenario + totality probe
-    let t = run_once(RunCfg {
-        peers,
-        boot_kb,
-        source: Source::Choose { ch, depth: params.depth, accs: &params.accs, kb_actors: &params.kb_actors },
-        dup: None,
-        totality: Some(&params.menu),
-    })
-    .await;
-    ex.acts = t.acts.clone();
-    ex.n_msgs = t.msgs.len();
-    ex.scenario = format!("{} peers, {}: {}", peers, if boot_kb { "key bundles by message" } else { "key bundles registered out of band" }, show_acts(&t.acts));
-    ex.refused = t.refused.clone();
-    if let Some(m) = t.machinery {
-        ex.machinery = Some(m);
-        return ex;
-    }
-    let replay = json!({"part": "scenario", "vector": ch.vector(), "scenario": ex.scenario}).to_string();
-
-    for a in &t.adv {
-        ex.adv_evals += 1;
-        ex.outcomes.insert(format!("adv/{}/{}", a.variant, a.res.class()));
-        if let Proc::Panic(p) = &a.res {
-            let hist = if a.prefix_len == 0 { "(nothing yet)".to_string() } else { history_upto(&t.acts, &t.msgs, a.prefix_len - 1) };
-            ex.findings.push(Finding {
-                key: format!("panic/{}/{}", a.variant, p.site()),
-                weight: (a.prefix_len, a.label.clone()),
-                what: format!(
-                    "Manager::process panicked instead of returning Ok/Err: receiver {} after history [{}] ({}) is handed `{}` -> panic '{}' at {}:{}",
-                    NAMES[a.receiver], hist, if boot_kb { "key bundles by message" } else { "key bundles out of band" }, a.label, p.msg, p.file, p.line
-                ),
-                replay: replay.clone(),
-            });
+    let oob = ch.choose_free(2, "bootstrap") == 0;
+    let mut acts = vec![];
+    // position in the choice log after the choice that fixed action t
+    let mut fixed_at = vec![];
+    if !oob {
+        for p in 0..peers {
+            acts.push(Act::Kb(p));
+            fixed_at.push(ch.log().len());
         }
     }
+    let mut model = Model::default();
+    let vars = create_variants(peers, &params.accs);
+    let create = Act::Create(vars[ch.choose_free(vars.len(), "create")].clone());
+    model.apply(&create);
+    acts.push(create);
+    fixed_at.push(ch.log().len());
+    for _ in 0..params.depth {
+        let opts = model.options(peers, &params.accs, &params.kb_actors);
+        if opts.is_empty() {
+            break;
+        }
+        let a = opts[ch.choose_free(opts.len(), "act")].clone();
+        model.apply(&a);
+        acts.push(a);
+        fixed_at.push(ch.log().len());
+    }
+    let v = ch.vector();
+    let owned_from = (0..acts.len()).find(|&t| v[fixed_at[t].min(v.len())..].iter().all(|&c| c == 0)).unwrap_or(acts.len());
+    Scenario { peers, oob, acts, owned_from }
+}
+
+async fn execute(ch: &Chooser, params: &Params) -> ExecOut {
+    let mut ex = ExecOut::default();
+    let sc = generate(ch, params);
+    let (peers, oob) = (sc.peers, sc.oob);
+    ex.peers = peers;
+    ex.boot_kb = !oob;
+    ex.acts = sc.acts.clone();
+    let boot = if oob { "key bundles registered out of band" } else { "key bundles published as messages" };
+    ex.scenario = format!("{peers} peers, {boot}: {}", show_acts(&sc.acts));
+    let replay = json!({"part": "scenario", "vector": ch.vector(), "scenario": ex.scenario}).to_string();
+
     // panics on honest first deliveries are totality violations too
     let note_first = |run: &RunOut, ex: &mut ExecOut| {
         for (i, row) in run.first.iter().enumerate() {
             for (p, r) in row.iter().enumerate() {
+                if let Some(r) = r {
+                    ex.outcomes.insert(format!("first/{}/{}", run.msgs[i].kind, r.class()));
+                }
                 if let Some(Proc::Panic(pi)) = r {
                     ex.findings.push(Finding {
-                        key: format!("panic/{}/{}", run.msgs[i].kind.split(':').next().unwrap_or("?").trim_end_matches("+dm"), pi.site()),
+                        key: format!("panic/{}/{}", base_kind(&run.msgs[i].kind), pi.site()),
                         weight: (i, String::new()),
-                        what: format!("honest delivery panicked: {} processing message #{i} ({}) of history [{}]: '{}' at {}:{}", NAMES[p], run.msgs[i].kind, history_upto(&run.acts, &run.msgs, i), pi.msg, pi.file, pi.line),
+                        what: format!("honest delivery panicked: {} processing message #{i} ({}) of history [{}] ({boot}): '{}' at {}:{}", NAMES[p], run.msgs[i].kind, history_upto(&run.acts, &run.msgs, i), pi.msg, pi.file, pi.line),
                         replay: replay.clone(),
                     });
                 }
             }
         }
     };
-    note_first(&t, &mut ex);
 
-    if t.acts.is_empty() {
+    // ---- baseline ----------------------------------------------------------------------------
+    let b0 = run_once(RunCfg { peers, oob, acts: &sc.acts, dup_at: None, totality: None }).await;
+    ex.refused = b0.refused.clone();
+    ex.n_msgs = b0.msgs.len();
+    if let Some(m) = &b0.machinery {
+        ex.machinery = Some(m.clone());
         return ex;
     }
-
-    // two clean baselines
-    let b0 = run_once(RunCfg { peers, boot_kb, source: Source::Fixed(&t.acts), dup: None, totality: None }).await;
-    let b1 = run_once(RunCfg { peers, boot_kb, source: Source::Fixed(&t.acts), dup: None, totality: None }).await;
-    for b in [&b0, &b1] {
-        if let Some(m) = &b.machinery {
-            ex.machinery = Some(m.clone());
-            return ex;
-        }
-    }
-    // which observables are reproducible between two identical runs?
-    let hashes = |r: &RunOut| r.msgs.iter().map(|m| m.hash).collect::<Vec<_>>();
-    let ids_repro = hashes(&b0) == hashes(&b1);
-    let first_repro = b0.first == b1.first;
-    let finals_repro = b0.finals == b1.finals;
-    if !ids_repro {
-        ex.irreproducible.push("message ids".into());
-    }
-    if !first_repro {
-        ex.irreproducible.push("first-delivery results".into());
-    }
-    if !finals_repro {
-        ex.irreproducible.push("final states".into());
-    }
+    note_first(&b0, &mut ex);
     for s in &b0.finals {
         ex.final_states.push(explorer::h64(&(&s.groups, &s.space, &s.members)));
     }
     let n = b0.msgs.len();
+    // if the real API refused an action the scenario is cut there; the executed part is a prefix
+    // that another scenario owns unless the refusal happened in the owned part
+    let executed = &sc.acts[..b0.acts.len()];
 
-    // duplicate runs
-    for k in 1..=n {
-        let d = run_once(RunCfg { peers, boot_kb, source: Source::Fixed(&t.acts), dup: Some(k), totality: None }).await;
+    // ---- totality ------------------------------------------------------------------------------
+    if sc.owned_from < executed.len() {
+        let t = run_once(RunCfg { peers, oob, acts: executed, dup_at: None, totality: Some((&params.menu, sc.owned_from)) }).await;
+        if let Some(m) = t.machinery {
+            ex.machinery = Some(m);
+            return ex;
+        }
+        for a in &t.adv {
+            ex.adv_evals += 1;
+            ex.outcomes.insert(format!("adv/{}/{}", a.variant, a.res.class()));
+            if let Proc::Panic(p) = &a.res {
+                let hist = if a.prefix_len == 0 { "(nothing yet)".to_string() } else { history_upto(&t.acts, &t.msgs, a.prefix_len - 1) };
+                ex.findings.push(Finding {
+                    key: format!("panic/{}/{}", a.variant, p.site()),
+                    weight: (a.prefix_len, a.label.clone()),
+                    what: format!(
+                        "Manager::process panicked instead of returning Ok/Err: receiver {} after history [{}] ({boot}) is handed `{}` -> panic '{}' at {}:{}",
+                        NAMES[a.receiver], hist, a.label, p.msg, p.file, p.line
+                    ),
+                    replay: replay.clone(),
+                });
+            }
+        }
+    }
+
+    // ---- duplicates ------------------------------------------------------------------------------
+    let positions: Vec<usize> = (0..n).filter(|&j| b0.msgs[j].act >= sc.owned_from).collect();
+    for &j in &positions {
+        let d = run_once(RunCfg { peers, oob, acts: executed, dup_at: Some(j), totality: None }).await;
         if let Some(m) = &d.machinery {
             ex.machinery = Some(m.clone());
             return ex;
+        }
+        if d.msgs.len() != n || d.msgs.iter().zip(&b0.msgs).any(|(a, b)| a.kind != b.kind || a.author != b.author) {
+            // the run with duplicates did not even produce the same shape of history
+            ex.findings.push(Finding {
+                key: "latent-divergence/history-shape".into(),
+                weight: (j, String::new()),
+                what: format!(
+                    "after the duplicates at position #{j} the same actions produced a different history: {:?} vs baseline {:?}; scenario [{}] ({boot}); refused: {:?}",
+                    d.msgs.iter().map(|m| m.kind.clone()).collect::<Vec<_>>(),
+                    b0.msgs.iter().map(|m| m.kind.clone()).collect::<Vec<_>>(),
+                    show_acts(executed),
+                    d.refused
+                ),
+                replay: replay.clone(),
+            });
         }
         let mut fired: BTreeSet<usize> = BTreeSet::new();
         for o in &d.dups {
@@ -1233,17 +1256,16 @@ async fn execute(ch: &Chooser, params: &Params) -> ExecOut {
             }
             let hist = history_upto(&d.acts, &d.msgs, o.j);
             let ctx = format!(
-                "{} re-processes message #{} ({}{}) right after position #{} of history [{}] ({})",
-                NAMES[o.peer], o.i, kind, if o.own { ", its own" } else { "" }, o.j, hist,
-                if boot_kb { "key bundles by message" } else { "key bundles out of band" }
+                "{} re-processes message #{} ({}{}) after position #{} of history [{}] ({boot})",
+                NAMES[o.peer], o.i, kind, if o.own { ", its own" } else { "" }, o.j, hist
             );
-            let base_kind = kind.split(':').next().unwrap_or("?").trim_end_matches("+dm").to_string();
+            let bk = base_kind(&kind);
             let weight = (o.j, format!("{:02}{:02}{}", o.j - o.i, o.peer, kind));
             match &o.res {
                 Proc::Panic(p) => {
                     fired.insert(o.peer);
                     ex.findings.push(Finding {
-                        key: format!("panic/{}/{}", base_kind, p.site()),
+                        key: format!("panic/{}/{}", bk, p.site()),
                         weight: weight.clone(),
                         what: format!("duplicate delivery panicked: {ctx}: '{}' at {}:{}", p.msg, p.file, p.line),
                         replay: replay.clone(),
@@ -1252,14 +1274,14 @@ async fn execute(ch: &Chooser, params: &Params) -> ExecOut {
                 Proc::Events(kinds, full) if !kinds.is_empty() => {
                     fired.insert(o.peer);
                     ex.findings.push(Finding {
-                        key: format!("idempotency/{}/{}/events-re-emitted:{}", base_kind, who, kinds.join("+")),
+                        key: format!("idempotency/{}/{}/events-re-emitted:{}", bk, who, kinds.join("+")),
                         weight: weight.clone(),
-                        what: format!("second processing emitted events again: {ctx} -> Ok({})", full.chars().take(300).collect::<String>()),
+                        what: format!("second processing emitted events again: {ctx} -> Ok({})", full.chars().take(260).collect::<String>()),
                         replay: replay.clone(),
                     });
                 }
                 Proc::Error(e) => {
-                    ex.dup_errors.insert(format!("{kind}/{who}: {}", e.chars().take(80).collect::<String>()));
+                    ex.dup_errors.insert(format!("{kind}/{who}: {}", strip_ids(e).chars().take(80).collect::<String>()));
                 }
                 _ => {}
             }
@@ -1276,72 +1298,57 @@ async fn execute(ch: &Chooser, params: &Params) -> ExecOut {
                     parts.push("members".into());
                 }
                 ex.findings.push(Finding {
-                    key: format!("idempotency/{}/{}/state-changed:{}", base_kind, who, parts.join("+")),
+                    key: format!("idempotency/{}/{}/state-changed:{}", bk, who, parts.join("+")),
                     weight: weight.clone(),
-                    what: format!("second processing changed persisted state: {ctx}; result {}; changed fields: {}", o.res.class(), parts.join(" ")),
+                    what: format!("second processing changed persisted state: {ctx}; it returned {}; changed fields: {}", o.res.class(), parts.join(" ")),
                     replay: replay.clone(),
                 });
             }
         }
         note_first(&d, &mut ex);
-        // differential against the baseline (only for peers none of whose duplicates fired, and
-        // only on observables that two identical runs reproduce)
-        if ids_repro && hashes(&d) != hashes(&b0) && fired.is_empty() {
-            let at = (0..n.min(d.msgs.len())).find(|&i| d.msgs[i].hash != b0.msgs[i].hash).unwrap_or(0);
-            let dbg = if std::env::var("VH_C39_DEBUG").is_ok() {
-                format!(" DEBUG baseline={:?} dup-run={:?}", b0.ops.get(at).map(|o| &o.header), d.ops.get(at).map(|o| &o.header))
-            } else {
-                String::new()
-            };
-            ex.findings.push(Finding {
-                key: "latent-divergence/forged-message-ids".into(),
-                weight: (n, format!("{k}")),
-                what: format!("no duplicate had a visible effect, yet the messages forged later differ from the run without duplicates (first at #{at}, {}): scenario [{}], duplicate distance {k}{dbg}", b0.msgs[at].kind, show_acts(&t.acts)),
-                replay: replay.clone(),
-            });
-        }
+        // weak differential against the baseline, for peers none of whose duplicates fired: classes
+        // of all later first deliveries and the final member lists (both independent of message ids,
+        // which are not reproducible between runs: forged messages embed a HashSet)
         for p in 0..peers {
             if fired.contains(&p) {
                 continue;
             }
-            if first_repro && ids_repro {
-                for i in 0..n.min(d.first.len()) {
-                    if d.first[i][p] != b0.first[i][p] {
-                        ex.findings.push(Finding {
-                            key: "latent-divergence/later-delivery-result".into(),
-                            weight: (i, format!("{k}{p}")),
-                            what: format!(
-                                "no duplicate of {} had a visible effect, yet its first processing of message #{i} ({}) differs from the run without duplicates: {:?} vs {:?}; scenario [{}], duplicate distance {k}",
-                                NAMES[p], d.msgs[i].kind, d.first[i][p].as_ref().map(|r| r.class()), b0.first[i][p].as_ref().map(|r| r.class()), show_acts(&t.acts)
-                            ),
-                            replay: replay.clone(),
-                        });
-                        break;
-                    }
-                }
-            }
-            if finals_repro && ids_repro && d.finals.len() == b0.finals.len() {
-                let (a, b) = (&d.finals[p], &b0.finals[p]);
-                let gd = diff_fields(&a.groups, &b.groups);
-                let sd = diff_fields(&a.space, &b.space);
-                if !gd.is_empty() || !sd.is_empty() || a.members != b.members {
+            for i in (j + 1)..n.min(d.first.len()) {
+                let (x, y) = (d.first[i][p].as_ref().map(|r| r.class()), b0.first[i][p].as_ref().map(|r| r.class()));
+                if x != y {
                     ex.findings.push(Finding {
-                        key: "latent-divergence/final-state".into(),
-                        weight: (n, format!("{k}{p}")),
+                        key: "latent-divergence/later-delivery-result".into(),
+                        weight: (i, format!("{j}{p}")),
                         what: format!(
-                            "no duplicate of {} had a visible effect, yet its final state differs from the run without duplicates (groups {:?}, space {:?}, members {}); scenario [{}], duplicate distance {k}",
-                            NAMES[p], gd, sd, a.members != b.members, show_acts(&t.acts)
+                            "no duplicate of {} had a visible effect, yet its first processing of the later message #{i} ({}) differs from the run without duplicates: {x:?} vs {y:?}; duplicates after position #{j}; scenario [{}] ({boot})",
+                            NAMES[p], d.msgs[i].kind, show_acts(executed)
                         ),
                         replay: replay.clone(),
                     });
+                    break;
                 }
+            }
+            if d.finals.len() == b0.finals.len() && d.finals[p].members != b0.finals[p].members {
+                ex.findings.push(Finding {
+                    key: "latent-divergence/final-members".into(),
+                    weight: (n, format!("{j}{p}")),
+                    what: format!(
+                        "no duplicate of {} had a visible effect, yet its final member lists differ from the run without duplicates: {} vs {}; duplicates after position #{j}; scenario [{}] ({boot})",
+                        NAMES[p], d.finals[p].members, b0.finals[p].members, show_acts(executed)
+                    ),
+                    replay: replay.clone(),
+                });
             }
         }
     }
     // non-trivial: the scenario changed membership after creation or carried application data, so
     // duplicates hit states where they could matter
-    ex.nontrivial = t.acts.iter().any(|a| matches!(a, Act::Add(..) | Act::Remove(..) | Act::App(..)));
+    ex.nontrivial = !positions.is_empty() && executed.iter().any(|a| matches!(a, Act::Add(..) | Act::Remove(..) | Act::App(..)));
     ex
+}
+
+fn base_kind(kind: &str) -> String {
+    kind.split(':').next().unwrap_or("?").trim_end_matches("+dm").to_string()
 }
 
 // ------------------------------------------------------------------------------------------------
@@ -1377,7 +1384,6 @@ pub fn run(mut rep: Report) -> i32 {
         nontrivial: BTreeSet<u64>,
         refused: BTreeMap<String, u64>,
         machinery: Vec<String>,
-        irreproducible: BTreeMap<String, u64>,
         registry_growth: u64,
         dup_errors: BTreeSet<String>,
         samples: Vec<serde_json::Value>,
@@ -1394,7 +1400,6 @@ pub fn run(mut rep: Report) -> i32 {
         nontrivial: BTreeSet::new(),
         refused: BTreeMap::new(),
         machinery: vec![],
-        irreproducible: BTreeMap::new(),
         registry_growth: 0,
         dup_errors: BTreeSet::new(),
         samples: vec![],
@@ -1441,9 +1446,6 @@ pub fn run(mut rep: Report) -> i32 {
             agg.registry_growth += ex.registry_growth;
             agg.dup_errors.extend(ex.dup_errors);
             agg.max_msgs = agg.max_msgs.max(ex.n_msgs);
-            for i in ex.irreproducible {
-                *agg.irreproducible.entry(i).or_insert(0) += 1;
-            }
             for s in ex.final_states {
                 agg.states.insert(s);
             }
@@ -1481,12 +1483,11 @@ pub fn run(mut rep: Report) -> i32 {
     rep.set("duplicate_returned_error", json!(agg.dup_errors));
     rep.set("key_registry_grew_on_duplicate", json!(agg.registry_growth));
     rep.set("actions_refused_by_real_api", json!(agg.refused));
-    rep.set("irreproducible_observables", json!(agg.irreproducible));
     rep.assume(&format!("wall clock frozen at {FROZEN_NOW} through the clock_gettime seam (key-bundle lifetimes and secret timestamps do not move between the compared runs)"));
     rep.assume("peer identities and all protocol randomness come from p2panda_encryption::Rng seeded per peer (TestPeer); histories are linear: every message reaches every other peer before the next action");
     rep.assume("state comparison is on canonicalised CBOR (maps and arrays sorted) because the persisted states serialise HashMap/HashSet in RandomState order; a change that only permutes a Vec is not seen");
     rep.assume("a duplicate that returns Err without events or state change is accepted (the property does not forbid an error); a changed key registry alone is reported under key_registry_grew_on_duplicate, not as a violation (the statement speaks of group and space state)");
-    rep.assume("cross-run comparison with the baseline is applied only to observables that two baseline runs reproduce (see irreproducible_observables)");
+    rep.assume("the manager's only mutable state besides its store is an RNG that Manager::process never draws from (read from the code), so an unchanged persisted state means unchanged later behaviour; message ids are not reproducible between runs (forged direct messages embed a HashSet), therefore the cross-run comparison is restricted to id-independent observables");
     for m in agg.machinery {
         rep.machinery_error(m);
     }
